@@ -321,10 +321,14 @@ def check_tensor_action(ctx, ps, lib_tr, G, oracle, rng, wit, ranks):
     n = G.size
     for rank in ranks:
         pool = transform_pool(ps, lib_tr, rng, rank)
-        for lTR, TTR, spTR in pool:
-            for lInv, TInv, spInv in pool:
-                if lTR.startswith(("prod", "custom")) and lInv.startswith(("prod", "custom")) and rng.random() < 0.5:
-                    continue
+        npre = len(PREDEFINED)
+        combos = [(a, b) for a in range(npre) for b in range(npre)]          # all pairs of pre-defined transforms
+        while len(combos) < npre * npre + 12:                                 # + pairs with products / custom transforms
+            a, b = int(rng.integers(len(pool))), int(rng.integers(len(pool)))
+            if a >= npre or b >= npre:
+                combos.append((a, b))
+        for ia, ib in combos:
+            for (lTR, TTR, spTR), (lInv, TInv, spInv) in [(pool[ia], pool[ib])]:
                 pT, pI = perm_of(spTR, rank), perm_of(spInv, rank)
                 if pT is None or pI is None:
                     ctx.count("outside_domain_transform_touches_non_tensor_axes")
@@ -666,7 +670,7 @@ def case(ctx, rng, idx, state):
 if __name__ == "__main__":
     harness.main(
         PROP, "exploration", case, setup_fn=setup,
-        tiers=dict(quick=dict(cases=128, shards=8, time=120), thorough=dict(cases=2560, shards=16, time=1100)),
+        tiers=dict(quick=dict(cases=128, shards=8, time=100), thorough=dict(cases=2560, shards=16, time=1100)),
         rule="all 32 crystallographic point groups (cycled by case index, so each is built >=3 times in the quick tier) x "
              "{ordinary, gray, black-white} x alternative/redundant/shuffled generator lists x {standard frame via strings, "
              "random SO(3) frame via Rotation/Mirror, via explicit matrices} x compatible Bravais lattices (own family or "
